@@ -66,6 +66,20 @@ It is reproduced on the real code by the check (`findings/F6_*.json`). `after_on
 therefore a statement about expiries DELIVERED (timers), not about events processed: a stale queued
 expiry of an earlier activation can still be matched by a later one.
 
+## Disproved for a stop that lands INSIDE a macrostep — findings F73 / F73s (C14: F72)
+
+`never_after_stop` is a statement about `stopRT` itself. `stop()` can arrive while the interpreter's own task is suspended inside a
+macrostep (`window`); the rest of that macrostep then runs on the stopped interpreter and `scheduleRT` arms the timers of the
+states it enters — behind the stop, with nothing left to cancel them:
+* `stop_inside_macrostep_arms_tasks` (`decide`d on `RTEx.mStop` / `RTEx.mStopSync`): after the run the status is `stopped` AND a
+  timer is armed (async: no slow action needed, the stop shares its instant with an input and lands in the `await` of
+  `cancel_by_owner`; sync: another thread stops the interpreter while a blocking exit action runs); the timer expires later and its
+  `send` is refused. The same stop between macrosteps leaves nothing.
+The real engines produce the same record lists (`findings/F73_*.json`, `F73b_*.json`, `F73s_*.json`; monitor rule
+`task-alive-after-stop`). What the model does NOT describe: the async engine's stop() CANCELS the run loop once `cancel_all()` has
+been awaited, which cuts the macrostep short at its next suspension point — the model always lets it finish; such runs are
+compared up to the stop only (`c08.compare`).
+
 ## Repaired in the library — finding F55
 One delay key with several guarded alternatives used to arm one timer PER ALTERNATIVE, all with the same
 event type; each expiry selected the first alternative whose guard passes, so the winning (targetless)
@@ -91,7 +105,7 @@ and the shim run one thread at a time); asyncio internals beyond "timer handles 
 creation) order, ready callbacks are FIFO". (An external event arriving while `start()` is still
 inside a slow entry action IS in the model and in the generator since the library creates the run loop
 only after the initial entry has settled — `loopCreated`: the event waits in the queue; `stop()` during
-`start()` is not generated.)
+`start()` IS generated since F72 (`stopin` profiles): it is a stop inside the initial macrostep.)
 -/
 namespace XSM.C08
 open XSM XSM.RTP
@@ -225,10 +239,41 @@ theorem never_after_exit_step (c : RCx) (hw : WndOK c) (hfl : c.fl = .async) (h 
     (∀ t ∈ (exitStepRT c h ev rt p).timers, t.owner ≠ p) ∧ (∀ i ∈ (exitStepRT c h ev rt p).invs, i.owner ≠ p) :=
   exitStep_async_none c hw hfl h ev rt p d hd he
 
-/-- `stop()` leaves no timer and no service task -/
+/-- `stop()` leaves no timer and no service task — at the moment it is done. (What the interpreter's own task does afterwards,
+    when the stop arrived INSIDE a macrostep, is `stop_inside_macrostep_arms_tasks` below: findings F72 – F74.) -/
 theorem never_after_stop (rt : RT) (h1 : rt.st.status ≠ "uninitialized") (h2 : rt.st.status ≠ "stopped") :
     (stopRT rt).timers = [] ∧ (stopRT rt).invs = [] ∧ (stopRT rt).st.status = "stopped" :=
   stop_clears rt h1 h2
+
+set_option maxRecDepth 100000 in
+/-- **F73 / F73s (C14: F72) — `never_after_stop` is about `stopRT` ITSELF; it says nothing about what the interpreter's own task
+    does AFTER it when the stop arrived inside a macrostep.** `stop()` is an external input like any other: it can arrive while the
+    interpreter's task is suspended inside a macrostep (`window`: the `await` of `cancel_by_owner`, a slow action), and the rest
+    of that macrostep then runs on the stopped interpreter — `enterStepRT` / `scheduleRT` do not look at the status, exactly like
+    `_enter_states` / `_schedule_state_tasks`.
+    async (`RTEx.mStop`: `s` has `after 300 → u`, `R` re-enters `s`; no slow action): `R` and `stop` at t = 50. The run loop takes
+    `R`, suspends in the cancellation of the timer of `s`, the stop lands there (`stopRT`: status `stopped`, no timer left), then
+    `s` is exited, re-entered and its timer ARMED AGAIN at t = 50: after the run the interpreter is stopped and owns a live timer
+    (of activation 2), which expires at t = 350 — its `send` is refused. The same `stop` one millisecond later, between
+    macrosteps, leaves nothing.
+    sync (`RTEx.mStopSync`: the exit of `a` blocks for 50 ms, `b` has `after 300` and invokes a plain service): `GO` at t = 100,
+    `stop` from another thread at t = 120; at t = 150 the macrostep goes on: `b` is entered, its timer armed and its service CALLED
+    on the stopped interpreter.
+    Reproduced on the real engines with identical record lists (`findings/F73_*.json`, `F73s_*.json`). -/
+theorem stop_inside_macrostep_arms_tasks :
+    ((RTEx.runStopInside.flush.log.reverse.filter (fun r => r.1 = 50)).map (·.2) =
+      ["send:R:running", "#recv:R", "stop", "ex:s@R", "t:s:R@R", "en:s@R", "arm:m.s:after.300.m.s/300", "#t:m,m.s"] ∧
+     RTEx.runStopInside.st.status = "stopped" ∧
+     RTEx.runStopInside.timers.map (fun t => (t.owner, t.evType, t.armed, t.delay, t.act)) = [(["s"], "after.300.m.s", 50, 300, 2)]) ∧
+    ((RTEx.runStopInsideLate.flush.log.reverse.filter (fun r => r.1 = 350)).map (·.2) = ["send:after.300.m.s:stopped"] ∧
+     RTEx.runStopInsideLate.fired.map (fun t => (t.act, t.armed, t.delay)) = [(2, 50, 300)] ∧
+     RTEx.runStopInsideLate.st.status = "stopped") ∧
+    (RTEx.runStopBetween.timers.length = 0 ∧ RTEx.runStopBetween.invs.length = 0 ∧ RTEx.runStopBetween.st.status = "stopped") ∧
+    ((RTEx.runStopSync.flush.log.reverse.filter (fun r => 120 ≤ r.1)).map (·.2) =
+      ["stop", "slow@GO", "ex:a@GO", "t:a:GO@GO", "en:b@GO", "arm:m.b:after.300.m.b/300", "svc-start:ib0", "svc-end:ib0:ok",
+       "send:done.invoke.ib0:stopped", "#t:m,m.b"] ∧
+     RTEx.runStopSync.st.status = "stopped" ∧
+     RTEx.runStopSync.timers.map (fun t => (t.owner, t.evType, t.armed, t.delay)) = [(["b"], "after.300.m.b", 150, 300)]) := by decide
 
 /-- *Clause "several delays on one state are independent".* Delivering one timer removes exactly
     that timer: every other one (of the same state or any other) stays armed. -/
